@@ -264,10 +264,16 @@ func lifeMain(args []string) error {
 	afterSettle := takeSnapshot()
 	probeOK := probe()
 	note("settled probe=%v", probeOK)
-	// idle heap / cpu: two samples while nothing is sent
+	// idle cpu: measured on its own (a snapshot collects garbage and dumps every goroutine: with thousands of
+	// connections behind us that costs more CPU than a quiet process may use)
+	cpu1 := cpuMillis()
+	time.Sleep(1000 * time.Millisecond)
+	cpu2 := cpuMillis()
+	// idle heap: two samples while nothing is sent
 	h1 := takeSnapshot()
 	time.Sleep(1000 * time.Millisecond)
 	h2 := takeSnapshot()
+	h1.CPUms, h2.CPUms = cpu1, cpu2
 	var final lifeSnapshot
 	quiescent := func(s lifeSnapshot) bool {
 		if s.Handlers > 0 {
